@@ -287,6 +287,9 @@ bool prop_C05(Tape& t, Report& rep)
         if (o.bestmoves.size() != 1)
             return rep.fail("go:bestmove_count", std::to_string(o.bestmoves.size()) + " bestmove lines for one go\n session: " + history + "\n output:\n" + o.raw);
         if (o.order.back() != 1) return rep.fail("go:info_after_bestmove", "output continues after bestmove\n session: " + history + "\n output:\n" + o.raw);
+        if (o.livelock)
+            return rep.fail("go:never_answered:root_re_searched_without_end",
+                            "one iteration searched the root " + std::to_string(sl::ROUND_LIMIT) + " times without finishing; without the harness's stop this `go` is never answered\n session: " + history);
         const std::string& bm = o.bestmoves[0];
         bool isLegal = std::find_if(legal.begin(), legal.end(), [&](const ref::Move& m) { return m.uci() == bm; }) != legal.end();
         if (!isLegal)
@@ -926,7 +929,7 @@ bool prop_C09(Tape& t, Report& rep)
     std::string history;
     for (int si = 0; si < nsearch; ++si)
     {
-        int mode = t.weighted({4, 3, 3});
+        int mode = t.weighted({4, 3, 3, 2});
         ref::Pos root;
         Limits lim;
         sl::Plan plan;
@@ -934,7 +937,17 @@ bool prop_C09(Tape& t, Report& rep)
         plan.nodes_per_ms = 1 + t.choose(500);
         std::string kind;
         bool excluded_deep = false;
-        if (mode == 0)
+        bool deeperRestricted = false;
+        if (mode == 3)
+        {
+            // deeper searches of a restricted root: from iteration 3 on the root is searched in an aspiration window, and a
+            // restricted root has no table entry of its own to lean on between re-searches
+            root = t.flag() ? root_with_moves(t, rep, 40).cur : gen::gen_fen(t, &rep, t.flag() ? 1 : 2);
+            lim.depth = 5 + int(t.choose(3));
+            kind = "depth_5_to_7_restricted_root";
+            deeperRestricted = true;
+        }
+        else if (mode == 0)
         {
             root = root_with_moves(t, rep, 60).cur;
             lim.depth = 1 + int(t.choose(g_tier ? 6 : 4));
@@ -972,7 +985,23 @@ bool prop_C09(Tape& t, Report& rep)
         Position pos = br::from_fen(root);
         std::vector<std::string> subset;
         bool warmed = false;
-        if (mode != 1 && t.chance(1, 2))
+        if (deeperRestricted)
+        {
+            if (legal.size() < 3) continue;
+            set_searchmoves(t, pos, legal, lim, subset);
+            while (subset.size() > 3)
+            {
+                subset.pop_back();
+                --lim.searchmovesnum;
+            }
+            for (size_t k = 0; subset.size() < 2 && k < legal.size(); ++k)
+                if (std::find(subset.begin(), subset.end(), legal[k].uci()) == subset.end())
+                {
+                    lim.searchmoves[lim.searchmovesnum++] = pos.parse_uci(legal[k].uci());
+                    subset.push_back(legal[k].uci());
+                }
+        }
+        else if (mode != 1 && t.chance(1, 2))
         {
             // warm the table with a full-width search of the same root: the root entry then names the overall best move,
             // which may lie outside the subset searched next
@@ -998,6 +1027,11 @@ bool prop_C09(Tape& t, Report& rep)
         if (lim.depth > 40 || legal.size() == 1 || !subset.empty()) rep.nontriv(fnv1a(desc));
         if (lim.depth > 40) rep.sample("c09:depth>40", desc, 2);
         if (!subset.empty()) rep.sample("c09:searchmoves", desc, 2);
+        if (o.max_root_searches_in_one_iteration > 1) rep.cls("c09:iteration_with_root_re_search");
+        if (o.livelock)
+            return rep.fail("limits:does_not_terminate:root_re_searched_without_end",
+                            "one iteration searched the root " + std::to_string(sl::ROUND_LIMIT) + " times (aspiration re-searches) without finishing: the search does not terminate on its own\n " + desc +
+                                "\n session: " + history);
         if (o.capped)
         {
             rep.cls("c09:inconclusive_visit_cap");
